@@ -744,12 +744,11 @@ Proof.
   destruct (attrs_bits (c_codec c) use (c_txn c) 0 0 Hcodec (or_introl eq_refl) (or_introl eq_refl))
     as (H1 & H2 & H3 & H4 & H5).
   cbv zeta in *. rewrite !Z.lor_0_r in *. fold (attributes c use) in *. fold a in H1, H2, H3, H4, H5.
-  repeat split; try assumption; try lia.
-  - apply Z.eqb_eq. exact H2.
-  - apply Z.eqb_eq. exact H4.
-  - subst a. unfold attributes.
-    assert (Hc : c_codec c = 0 \/ c_codec c = 1 \/ c_codec c = 2 \/ c_codec c = 3 \/ c_codec c = 4) by lia.
-    destruct Hc as [->|[->|[->|[->| ->]]]]; destruct use, (c_txn c); cbv; congruence.
+  split; [exact H1|]. split; [exact H3|].
+  split; [apply Z.eqb_eq; exact H2|]. split; [apply Z.eqb_eq; exact H4|].
+  subst a. unfold attributes.
+  assert (Hc : c_codec c = 0 \/ c_codec c = 1 \/ c_codec c = 2 \/ c_codec c = 3 \/ c_codec c = 4) by lia.
+  destruct Hc as [->|[->|[->|[->| ->]]]]; destruct use, (c_txn c); cbv; split; congruence.
 Qed.
 
 (* size(), the results of append() and the limit predicate, against the bytes produced *)
